@@ -424,6 +424,84 @@ static bool execute(const std::vector<std::string>& t, std::string& out) {
     return false;
 }
 
+
+// ---------------------------------------------------------------------------------- aliased arguments
+//   al <op> <buffer> <off>:<len> <off>:<len> [<off>:<len>] [limit]
+// All view arguments point into ONE exact-size copy of <buffer> (needle inside / overlapping /
+// equal to the subject).  Only the shapes that do not modify the bytes they read are meaningful here
+// (copying versions, string_view* trimming, comparisons) plus the in-place replace_first, whose single
+// std::string::replace call is specified to cope with aliasing.  The in-place replace_all / trim /
+// erase_all keep re-reading their needle / drop argument while they modify the string; calling them
+// with views into that string is outside their contract (see notes/C19.md) and is not executed.
+static bool parse_ol(const std::string& tok, size_t blen, size_t& off, size_t& len) {
+    size_t c = tok.find(':');
+    if (c == std::string::npos || c == 0 || c + 1 >= tok.size() || tok.size() > 12) return false;
+    for (size_t i = 0; i < tok.size(); ++i) if (i != c && (tok[i] < '0' || tok[i] > '9')) return false;
+    off = std::stoul(tok.substr(0, c)); len = std::stoul(tok.substr(c + 1));
+    return off <= blen && len <= blen - off;
+}
+
+static bool execute_alias(const std::vector<std::string>& t, std::string& out) {
+    if (t.size() < 5) return false;
+    const std::string& op = t[1];
+    std::string buf;
+    if (!parse_bytes(t[2], buf)) return false;
+    Exact B(buf);
+    size_t o[3] = {0, 0, 0}, l[3] = {0, 0, 0};
+    size_t nviews = (op == "repf" || op == "repa") ? 3 : 2;
+    if (t.size() < 3 + nviews) return false;
+    for (size_t k = 0; k < nviews; ++k) if (!parse_ol(t[3 + k], buf.size(), o[k], l[k])) return false;
+    tlx::string_view v0(B.p + o[0], l[0]), v1(B.p + o[1], l[1]), v2(B.p + o[2], l[2]);
+    if (op == "sw" && t.size() == 5) {
+        out.clear();
+        out += bit(tlx::starts_with(v0, v1)); out += bit(tlx::ends_with(v0, v1));
+        out += bit(tlx::starts_with_icase(v0, v1)); out += bit(tlx::ends_with_icase(v0, v1));
+        return true;
+    }
+    if (op == "contains" && t.size() == 5) { out = std::string(1, bit(tlx::contains(v0, v1))); return true; }
+    if (op == "icmp" && t.size() == 5) {
+        out = "c="; out += sgn(tlx::compare_icase(v0, v1));
+        out += " e="; out += bit(tlx::equal_icase(v0, v1));
+        out += " l="; out += bit(tlx::less_icase(v0, v1));
+        return true;
+    }
+    if ((op == "repf" || op == "repa") && t.size() == 6) {
+        if (l[1] == 0) return false;
+        if (op == "repf") {
+            out = hex(tlx::replace_first(v0, v1, v2));
+            // in place on a std::string, needle and replacement being views into that very string
+            std::string s(buf);
+            tlx::replace_first(&s, tlx::string_view(s.data() + o[1], l[1]), tlx::string_view(s.data() + o[2], l[2]));
+            std::string whole = hex(tlx::replace_first(tlx::string_view(B.p, B.n), v1, v2));
+            if (hex(s) != whole) disagree("replace_first in place with aliased needle/replacement vs copy");
+        } else out = hex(tlx::replace_all(v0, v1, v2));
+        return true;
+    }
+    if (op == "erase" && t.size() == 5) { out = hex(tlx::erase_all(v0, v1)); return true; }
+    if ((op == "trim" || op == "triml" || op == "trimr") && t.size() == 5) {
+        tlx::string_view p = v0, q;
+        if (op == "trim") { tlx::trim(&p, v1); q = tlx::trim(v0, v1); }
+        else if (op == "triml") { tlx::trim_left(&p, v1); q = tlx::trim_left(v0, v1); }
+        else { tlx::trim_right(&p, v1); q = tlx::trim_right(v0, v1); }
+        out = hex(p.to_string()) + "," + hex(q.to_string());
+        return true;
+    }
+    if (op == "splits" && t.size() == 6) {
+        size_t lim;
+        if (!parse_num(t[5], lim)) return false;
+        Vec r = tlx::split(v0, v1, lim), r2;
+        r2.push_back("stale"); tlx::split(&r2, v0, v1, lim);
+        if (r != r2) disagree("split returning / split into (aliased)");
+        out = hexv(r);
+        return true;
+    }
+    if (op == "lev" && t.size() == 5) {
+        out = std::to_string(tlx::levenshtein(v0, v1)) + " " + std::to_string(tlx::levenshtein_icase(v0, v1));
+        return true;
+    }
+    return false;
+}
+
 // A loop that no longer terminates must not hang the check (and its shrinker).  Every
 // operation gets 0.5 s of *CPU time* (ITIMER_VIRTUAL: a descheduled process does not count);
 // when it expires the handler jumps back into the main loop, which reports the line, answers
@@ -470,7 +548,7 @@ int main(int argc, char** argv) {
             (have_expect ? expect : args).push_back(w);
         }
         std::string out;
-        g_op = args.empty() ? "" : args[0];
+        g_op = args.empty() ? "" : (args[0] == "al" && args.size() > 1 ? "al-" + args[1] : args[0]);
         bool ok = false;
         if (poisoned.count(g_op)) {
             vh::viol(g_op + " hang: skipped, an earlier line of this op did not terminate; line: " + line);
@@ -487,7 +565,7 @@ int main(int argc, char** argv) {
         }
         g_armed = 1;
         arm(500000);
-        try { ok = !args.empty() && execute(args, out); g_armed = 0; arm(0); }
+        try { ok = !args.empty() && (args[0] == "al" ? execute_alias(args, out) : execute(args, out)); g_armed = 0; arm(0); }
         catch (const std::exception& e) {
             // no operation of this harness may let an exception other than the documented
             // std::runtime_error (answered `X`) escape
@@ -506,7 +584,7 @@ int main(int argc, char** argv) {
                 for (const std::string& w : expect) e += (e.empty() ? "" : " ") + w;
                 std::string l;
                 for (const std::string& w : args) l += (l.empty() ? "" : " ") + w;
-                vh::viol(args[0] + " answers `" + out + "` but the direct definition gives `" + e + "` on: " + l);
+                vh::viol(g_op + " answers `" + out + "` but the direct definition gives `" + e + "` on: " + l);
             }
         }
         vh::answer(out);
